@@ -39,6 +39,7 @@ recorded findings).
 -/
 import CtyModel.Lemmas.RefineBase
 import CtyModel.Lemmas.RefinePrefix
+import CtyModel.Generated.Delims
 namespace CtyModel
 namespace C05
 open Refine
@@ -492,6 +493,18 @@ example : concOf ⟨.number, .n (.fin false 1 1 64)⟩ = some (.num (.fin false 
 
 -- the streaming law is satisfiable, with a boundary present
 example : 0 ≤ Ext.inert.lastBoundary (Ext.inert.nfc [97, 45]) := by decide
+
+
+/-! ### the delimiter table is the one in the source (regenerated on every check) -/
+
+/-- The model's delimiter table is, entry for entry and in order, the rune list of
+`ctystrings.sequenceMustEndGraphemeCluster` as the CURRENT source states it
+(`Generated.safeDelims` is re-extracted from cty/ctystrings/prefix.go on every check), and
+every entry is one byte — which is what `mustEndCluster` relies on.  A source edit to that
+switch re-decides this obligation. -/
+theorem delimiter_table_is_source :
+    delimiters.map (·.toNat) = Generated.safeDelims ∧ ∀ d ∈ Generated.safeDelims, d < 128 := by
+  decide
 
 end C05
 end CtyModel
